@@ -14,6 +14,7 @@ var needCapOne = map[string]string{
 }
 
 func runC19(p *Prog, r *Report) {
+	wsCheckOriginBothWays(p, r, "C19.16/switch-option-both-ways")
 	runSweeps(p, r, "C19.14/option-reaches-every-endpoint", "a socket option that endpoints inherit is passed to every dialer and listener of the socket", optionSweeps)
 	optionTypeAgreement(p, r, "C19.12/option-type-agreement")
 	gatedOptionFlags(p, r, "C19.13/gated-option-flags")
